@@ -168,6 +168,16 @@ func concHook(gate bool, point string, args ...any) {
 		}
 		return
 	}
+	if (point == "C_noop" || point == "P_noop") && !R.quiet {
+		// this Close lost the compare-and-swap: it is the idempotent no-op, somebody else does (or did) the closing
+		name := "prov"
+		if point == "C_noop" && len(args) > 0 {
+			if sc, ok := args[0].(godi.Scope); ok {
+				name = scopeNameQuiet(sc)
+			}
+		}
+		emit(M{"ev": "noop", "th": procName(), "scope": name})
+	}
 	if point == "W_exit" {
 		S.mu.Lock()
 		name := S.procs[goid()]
